@@ -1067,24 +1067,30 @@ func (s *APIServer) GetBindingHistory(ctx context.Context, in *pb.GetBindingHist
 				} else {
 					fromSet := make(map[string]struct{}, 0)
 					for _, txIn := range detail.MsgTx.TxIn {
+						var prevMtx *wire.MsgTx
 						list, err := s.node.Blockchain().GetTransactionInDB(&txIn.PreviousOutPoint.Hash)
 						if err != nil || len(list) == 0 {
-							logging.CPrint(logging.ERROR, "transaction not found", logging.LogFormat{
-								"tx":  txIn.PreviousOutPoint.Hash.String(),
-								"err": err,
-							})
-							return nil, status.New(ErrAPIQueryDataFailed, ErrCode[ErrAPIQueryDataFailed]).Err()
-						} else {
-							prevMtx := list[len(list)-1].Tx
-							ps, err := utils.ParsePkScript(prevMtx.TxOut[txIn.PreviousOutPoint.Index].PkScript, config.ChainParams)
-							if err != nil {
-								logging.CPrint(logging.ERROR, "ParsePkScript failed", logging.LogFormat{
+							// the funding transaction may itself still be unconfirmed
+							poolTx, perr := s.node.TxMemPool().FetchTransaction(&txIn.PreviousOutPoint.Hash)
+							if perr != nil {
+								logging.CPrint(logging.WARN, "funding transaction not found", logging.LogFormat{
+									"tx":  txIn.PreviousOutPoint.Hash.String(),
 									"err": err,
 								})
-								return nil, status.New(ErrAPIAbnormalData, ErrCode[ErrAPIAbnormalData]).Err()
+								continue
 							}
-							fromSet[ps.StdEncodeAddress()] = struct{}{}
+							prevMtx = poolTx.MsgTx()
+						} else {
+							prevMtx = list[len(list)-1].Tx
 						}
+						ps, err := utils.ParsePkScript(prevMtx.TxOut[txIn.PreviousOutPoint.Index].PkScript, config.ChainParams)
+						if err != nil {
+							logging.CPrint(logging.ERROR, "ParsePkScript failed", logging.LogFormat{
+								"err": err,
+							})
+							return nil, status.New(ErrAPIAbnormalData, ErrCode[ErrAPIAbnormalData]).Err()
+						}
+						fromSet[ps.StdEncodeAddress()] = struct{}{}
 					}
 					for from := range fromSet {
 						froms = append(froms, from)
